@@ -1,5 +1,5 @@
 (** C02 - No task is lost or stuck: runnable work always gets run, jobs terminate. *)
-From HQ Require Import Base.Prelude Cluster.Types Cluster.Core Cluster.Reactor Cluster.Worker Cluster.Server Cluster.Sys Cluster.Monitors Cluster.ProofsJob Cluster.ProofsCore Cluster.ProofsMore Cluster.BijBase Cluster.BijFinal Cluster.BijWitness Cluster.RejHyp Cluster.InvWFinal Cluster.InvAll.
+From HQ Require Import Base.Prelude Cluster.Types Cluster.Core Cluster.Reactor Cluster.Worker Cluster.Server Cluster.Sys Cluster.Monitors Cluster.ProofsJob Cluster.ProofsCore Cluster.ProofsMore Cluster.BijBase Cluster.BijFinal Cluster.BijWitness Cluster.RejHyp Cluster.InvWFinal Cluster.InvAll Cluster.NoPanicU0 Cluster.NoPanicU1 Cluster.NoPanicU20 Cluster.NoFresh.
 From Coq Require Import ZArith.
 Local Open Scope N_scope.
 
@@ -84,6 +84,29 @@ Theorem C02_queue_invariant : forall ops reserve maxfill s outs,
      exists t, find_task (c_tasks c) id = Some t /\ N.to_nat (t_rq t) = rq).
 Proof. exact queue_invariant_reachable. Qed.
 
+(** The hypothesis [run_fresh] of the invariants above is DERIVED (protocol invariant PROTO,
+    NoPanicU*.v): the same statement under the static well-formedness [ops_ok] of the inputs
+    (multi-node classes carry no resource amounts; scheduler answers use variant 0 and place
+    classes in their own mode). *)
+Theorem C02_worker_sets_invariant_static : forall ops reserve maxfill s outs,
+  Forall op_wf ops -> ops_ok (init_sys reserve maxfill) ops = true -> run (init_sys reserve maxfill) ops = Ok (s, outs) ->
+  let c := s_core s in
+  forallb (worker_sets_ok c) (c_workers c) = true /\
+  (forall t, In t (c_tasks c) ->
+     match t_state t with
+     | Assigned w _ | Running w _ => (exists wk a p f, find_worker (c_workers c) w = Some wk /\ w_assign wk = Sn a p f /\ tid_mem (t_id t) a = true)
+     | Prefilled w => (exists wk a p f, find_worker (c_workers c) w = Some wk /\ w_assign wk = Sn a p f /\ tid_mem (t_id t) p = true)
+     | Retracting _ => forall target rv, find_redirect (c_redirects c) (t_id t) = Some (target, rv) ->
+                         exists wk a p f, find_worker (c_workers c) target = Some wk /\ w_assign wk = Sn a p f /\ tid_mem (t_id t) a = true
+     | RunningMN ws => forall w, In w ws -> exists wk root, find_worker (c_workers c) w = Some wk /\ w_assign wk = Mn (t_id t) root
+     | _ => True
+     end).
+Proof. exact worker_sets_invariant_ops. Qed.
+Theorem C02_run_fresh_derived : forall ops reserve maxfill s outs,
+  Forall op_wf ops -> ops_ok (init_sys reserve maxfill) ops = true -> run (init_sys reserve maxfill) ops = Ok (s, outs) ->
+  run_fresh (init_sys reserve maxfill) ops = true.
+Proof. exact fresh_of_ops. Qed.
+
 Print Assumptions C02_queue_invariant.
 Print Assumptions C02_worker_sets_invariant.
 Print Assumptions C02_no_phantom_no_orphan.
@@ -91,3 +114,5 @@ Print Assumptions C02_no_phantom_example.
 Print Assumptions C02_ids_longer_than_entries_refuted.
 Print Assumptions C02_auto_ids_no_phantoms.
 Print Assumptions C02_ready_queue_sorted.
+Print Assumptions C02_worker_sets_invariant_static.
+Print Assumptions C02_run_fresh_derived.
